@@ -2,6 +2,7 @@
 
 mod crash_eng;
 mod hist_eng;
+mod maint_eng;
 mod search_eng;
 mod storage_eng;
 mod term_eng;
@@ -33,6 +34,9 @@ fn run_engine(engine: &str, args: &Args) -> Report {
         "hist_c18" => drive(&hist_eng::Hist { prop: "C18" }, args),
         "c13" => drive(&hist_eng::C13, args),
         "c19" => drive(&term_eng::C19, args),
+        "c05" => drive(&maint_eng::C05, args),
+        "c06" => drive(&maint_eng::C06, args),
+        "c12" => drive(&maint_eng::C12, args),
         "crash_c02" => drive(&crash_eng::Crash { prop: "C02" }, args),
         "crash_c03" => drive(&crash_eng::Crash { prop: "C03" }, args),
         "c14" => drive(&search_eng::C14, args),
